@@ -1,72 +1,149 @@
-(* C15 — emplacement into any buffer either succeeds correctly or reports the right error.
-   Pinned statements only; proofs in Proofs/EmplaceFacts.v and Proofs/EncFacts.v. *)
+(* C15 — emplacement into a buffer of any length at any address never panics: a misaligned buffer is
+   refused with BadAlign, a buffer too small for the type or for the requested content with
+   InsufficientSize, and an aligned buffer that can hold the content is accepted and then validates,
+   reads back the specified content and measures the reference extent (C03).
+   Pinned statements only; proofs in Proofs/EmplaceFacts.v and Proofs/EmplaceUnsizedFacts.v.
+   [utf8_init i]: every string literal inside the emplacer expression is well-formed UTF-8 (a Rust
+   &str always is; the model's byte list need not be, see c15_utf8_needed). *)
 From Coq Require Import NArith List Bool.
 From Flatty.Model Require Import Base Ty Layout Validate View Emplace.
-From Flatty.Proofs Require Import EmplaceFacts EmplaceSpec EncFacts.
+From Flatty.Proofs Require Import EmplaceFacts EmplaceSpec EmplaceUnsizedFacts.
 Open Scope N_scope.
 
-(* a misaligned buffer is refused with BadAlign and left untouched — every type, every emplacer
-   expression, every buffer length, before anything else is looked at *)
+(* for every accepted definition whose length / tag types fit usize, every well-typed emplacer
+   expression, every padding policy, every address and every buffer of every length:
+   new_in_place returns Ok or Err (Crash covers every panic and every out-of-bounds write) *)
+Theorem c15_never_crashes : forall t i, wf t = true -> narrow_ty t = true ->
+  init_ok t i = true -> utf8_init i = true ->
+  forall pv a buf, is_crash (snd (new_in_place pv t i a buf)) = false.
+Proof. exact emplace_never_crashes. Qed.
+
+(* a misaligned buffer is refused with BadAlign and returned as it was *)
 Theorem c15_badalign : forall pv t i a buf, aligned a (align t) = false ->
-  emplace pv t i a buf = (buf, Err BadAlign 0).
+  new_in_place pv t i a buf = (buf, Err BadAlign 0).
 Proof. exact emplace_badalign. Qed.
 
-(* an aligned buffer shorter than the type's MIN_SIZE is refused with InsufficientSize, untouched *)
-Theorem c15_too_small_for_type : forall pv t i a buf,
-  aligned a (align t) = true -> blen buf < min_size t ->
-  emplace pv t i a buf = (buf, Err InsufficientSize 0).
+(* an aligned buffer shorter than MIN_SIZE is refused with InsufficientSize and returned as it was *)
+Theorem c15_too_small : forall pv t i a buf, aligned a (align t) = true -> blen buf < min_size t ->
+  new_in_place pv t i a buf = (buf, Err InsufficientSize 0).
 Proof. exact emplace_too_small. Qed.
 
-(* sized types (scalars, arrays, sized structs and enums, nested): the three outcomes, for every
-   well-typed emplacer expression, every address and EVERY buffer length: BadAlign, InsufficientSize
-   (untouched), or Ok with a value that validates, reads back the specified content, and nothing
-   behind the value written — never a crash *)
-Theorem c15_sized : forall t i, wf t = true -> sized t = true -> init_ok t i = true ->
+(* an aligned buffer is refused with InsufficientSize whenever the content is not representable
+   (a length or offset does not fit its type, a vector of zero-sized items is not empty) or needs
+   more bytes than the buffer has *)
+Theorem c15_insufficient : forall t i, wf t = true -> narrow_ty t = true ->
+  init_ok t i = true -> utf8_init i = true ->
+  forall pv a buf, aligned a (align t) = true ->
+    ~ (representable t i = true /\ extent t i <= blen buf) ->
+    exists p, snd (new_in_place pv t i a buf) = Err InsufficientSize p.
+Proof. exact emplace_insufficient. Qed.
+
+(* exactly when it is accepted: the address is aligned, the content is representable and its
+   reference extent is at most the buffer length (every single length, not only multiples of the
+   alignment) *)
+Theorem c15_ok_iff : forall t i, wf t = true -> narrow_ty t = true ->
+  init_ok t i = true -> utf8_init i = true ->
   forall pv a buf,
-    let r := emplace pv t i a buf in
-    (aligned a (align t) = false -> r = (buf, Err BadAlign 0)) /\
-    (aligned a (align t) = true -> blen buf < ssize t -> r = (buf, Err InsufficientSize 0)) /\
-    (aligned a (align t) = true -> ssize t <= blen buf ->
-       snd r = Ok tt /\ validate t a (fst r) = Ok tt /\
+    snd (new_in_place pv t i a buf) = Ok tt <->
+    aligned a (align t) = true /\ representable t i = true /\ extent t i <= blen buf.
+Proof. exact emplace_ok_iff. Qed.
+
+(* the only errors: BadAlign exactly for a misaligned address, InsufficientSize otherwise *)
+Theorem c15_errors : forall t i, wf t = true -> narrow_ty t = true ->
+  init_ok t i = true -> utf8_init i = true ->
+  forall pv a buf k p, snd (new_in_place pv t i a buf) = Err k p ->
+    (k = BadAlign /\ aligned a (align t) = false) \/ (k = InsufficientSize /\ aligned a (align t) = true).
+Proof. exact emplace_errors. Qed.
+
+(* whatever the outcome the buffer keeps its length *)
+Theorem c15_keeps_length : forall t i, wf t = true -> narrow_ty t = true ->
+  init_ok t i = true -> utf8_init i = true ->
+  forall pv a buf, blen (fst (new_in_place pv t i a buf)) = blen buf.
+Proof. exact emplace_keeps_length. Qed.
+
+(* an accepted buffer satisfies C03 *)
+Theorem c15_accepted_reads_back : forall t i, wf t = true -> narrow_ty t = true ->
+  init_ok t i = true -> utf8_init i = true ->
+  forall pv a buf buf', new_in_place pv t i a buf = (buf', Ok tt) ->
+    blen buf' = blen buf /\
+    validate t a buf' = Ok tt /\
+    (exists v, view t buf' = Ok v /\ spec_value t i = Some (strip v)) /\
+    size_m t buf' = Ok (extent t i).
+Proof. exact emplace_reads_back. Qed.
+
+(* the unchecked emplacer behind the gate (what nested emplacers and the generated Init types call):
+   no crash, the length is kept, the only error is InsufficientSize, success exactly when the
+   content is representable and fits, and then the result is valid with the specified content *)
+Theorem c15_unchecked : forall t, wf t = true -> narrow_ty t = true ->
+  forall pv i a buf, init_ok t i = true -> utf8_init i = true ->
+    aligned a (align t) = true -> min_size t <= blen buf ->
+    let r := emplace_u pv t i a buf in
+    is_crash (snd r) = false /\
+    blen (fst r) = blen buf /\
+    (snd r = Ok tt ->
+       validate_u t a (fst r) = Ok tt /\
        (exists v, view t (fst r) = Ok v /\ spec_value t i = Some (strip v)) /\
-       blen (fst r) = blen buf /\ drop (ssize t) (fst r) = drop (ssize t) buf).
-Proof. exact sized_emplace_ok. Qed.
+       size_m t (fst r) = Ok (extent t i)) /\
+    (snd r = Ok tt <-> representable t i = true /\ extent t i <= blen buf) /\
+    (forall k p, snd r = Err k p -> k = InsufficientSize).
+Proof. exact emplace_u_ok. Qed.
 
-(* the empty / default state of the three containers is accepted by every aligned buffer of at
-   least MIN_SIZE bytes (and by c15_too_small_for_type refused by every shorter one) *)
-Theorem c15_vec_default : forall pv t l a buf,
-  wf (TVec t l) = true -> narrow l = true ->
-  aligned a (align (TVec t l)) = true -> min_size (TVec t l) <= blen buf ->
-  let r := default_in_place pv (TVec t l) a buf in
-  snd r = Ok tt /\ blen (fst r) = blen buf /\ validate (TVec t l) a (fst r) = Ok tt.
-Proof.
-  intros pv t l a buf Hw Hn Ha Hm r.
-  destruct (vec_default_ok pv t l a buf Hw Hn Ha Hm) as (H1 & _ & H3 & H4 & _). auto.
-Qed.
+(* assign_in_place on a valid value: no crash, the length is kept, the only error is
+   InsufficientSize, and on success the value is valid with the newly specified content *)
+Theorem c15_assign_in_place : forall t i, wf t = true -> narrow_ty t = true ->
+  init_ok t i = true -> utf8_init i = true ->
+  forall pv a bs, validate t a bs = Ok tt ->
+    let r := assign_in_place pv t i a bs in
+    is_crash (snd r) = false /\
+    blen (fst r) = blen bs /\
+    (snd r = Ok tt ->
+       validate t a (fst r) = Ok tt /\
+       (exists v, view t (fst r) = Ok v /\ spec_value t i = Some (strip v)) /\
+       size_m t (fst r) = Ok (extent t i)) /\
+    (forall k p, snd r = Err k p -> k = InsufficientSize).
+Proof. exact assign_in_place_ok. Qed.
 
-Theorem c15_flex_default : forall pv t l a buf,
-  wf (TFlex t l) = true -> narrow l = true ->
-  aligned a (align (TFlex t l)) = true -> min_size (TFlex t l) <= blen buf ->
-  let r := default_in_place pv (TFlex t l) a buf in
-  snd r = Ok tt /\ validate (TFlex t l) a (fst r) = Ok tt.
-Proof.
-  intros pv t l a buf Hw Hn Ha Hm r.
-  destruct (flex_default_ok pv t l a buf Hw Hn Ha Hm) as (H1 & _ & H3 & _). auto.
-Qed.
-
-(* non-vacuity: struct { u8, u32 } at an odd address, in 7 bytes, in 8 bytes *)
-Example c15_example :
-  let u8 := TInt {| isize := 1; ialign := 1; ibe := false |} in
-  let u32 := TInt {| isize := 4; ialign := 4; ibe := false |} in
-  let t := TStruct true (FCons u8 (FCons u32 FNil)) in
-  let i := ISeq [IInt 7; IInt 1000] in
-  snd (emplace None t i 2 (repeat 9 8)) = Err BadAlign 0 /\
-  snd (emplace None t i 4 (repeat 9 7)) = Err InsufficientSize 0 /\
-  emplace None t i 4 (repeat 9 8) = ([7; 9; 9; 9; 232; 3; 0; 0], Ok tt).
+(* the condition utf8_init cannot be dropped from the read-back statements: a string literal that
+   is not UTF-8 (impossible for a Rust &str) is copied as it is and the result does not validate *)
+Example c15_utf8_needed :
+  let l8 := {| isize := 1; ialign := 1; ibe := false |} in
+  let r := new_in_place None (TStr l8) (IStr [255]) 0 [0; 0; 0] in
+  init_ok (TStr l8) (IStr [255]) = true /\ utf8_init (IStr [255]) = false /\
+  r = ([1; 255; 0], Ok tt) /\ validate (TStr l8) 0 (fst r) = Err InvalidData 1.
 Proof. vm_compute. repeat split; reflexivity. Qed.
 
+(* non-vacuity: FlexVec<FlatVec<u32, u8>, u8> with three items (extent 44, alignment 4): accepted
+   for every buffer length from 44 on and refused with InsufficientSize below, for every length
+   0..60; BadAlign at a misaligned address; a vector literal that exceeds the capacity is refused *)
+Example c15_example :
+  let u8i := {| isize := 1; ialign := 1; ibe := false |} in
+  let u32 := TInt {| isize := 4; ialign := 4; ibe := false |} in
+  let t := TFlex (TVec u32 u8i) u8i in
+  let i := IFlex [IVecArr [IInt 1; IInt 2]; IVecIter []; IVecArr [IInt 5; IInt 6; IInt 7]] in
+  let buf n := repeat 170 n in
+  wf t = true /\ narrow_ty t = true /\ init_ok t i = true /\ utf8_init i = true /\
+  representable t i = true /\ extent t i = 44 /\ min_size t = 4 /\
+  forallb (fun n => Bool.eqb (is_ok (snd (new_in_place None t i 8 (buf n)))) (44 <=? N.of_nat n))
+          (seq 0 61) = true /\
+  forallb (fun n => match snd (new_in_place None t i 8 (buf n)) with
+                    | Ok _ => 44 <=? N.of_nat n
+                    | Err InsufficientSize _ => N.of_nat n <? 44
+                    | _ => false end) (seq 0 61) = true /\
+  snd (new_in_place None t i 6 (buf 44%nat)) = Err BadAlign 0 /\
+  view t (fst (new_in_place None t i 8 (buf 44%nat))) =
+    Ok (VNode 0 [VCont 2 [VInt 1; VInt 2]; VCont 0 []; VCont 3 [VInt 5; VInt 6; VInt 7]]) /\
+  size_m t (fst (new_in_place None t i 8 (buf 47%nat))) = Ok 44 /\
+  snd (new_in_place None (TVec u32 u8i) (IVecArr [IInt 1; IInt 2; IInt 3]) 4 (buf 15%nat)) = Err InsufficientSize 0 /\
+  snd (new_in_place None (TVec u32 u8i) (IVecArr [IInt 1; IInt 2; IInt 3]) 4 (buf 16%nat)) = Ok tt.
+Proof. vm_compute. repeat split; reflexivity. Qed.
+
+Print Assumptions c15_never_crashes.
 Print Assumptions c15_badalign.
-Print Assumptions c15_too_small_for_type.
-Print Assumptions c15_sized.
-Print Assumptions c15_vec_default.
-Print Assumptions c15_flex_default.
+Print Assumptions c15_too_small.
+Print Assumptions c15_insufficient.
+Print Assumptions c15_ok_iff.
+Print Assumptions c15_errors.
+Print Assumptions c15_keeps_length.
+Print Assumptions c15_accepted_reads_back.
+Print Assumptions c15_unchecked.
+Print Assumptions c15_assign_in_place.
